@@ -32,7 +32,11 @@ impl<T: Sized> JoinHandle<T> {
         unsafe {
             #[cfg(feature = "verif-hooks")]
             rusl::verif::point(300);
-            futex_wait_fast(self.tsm.get_futex(), UNFINISHED);
+            // A futex wait can return spuriously (signal, stale wake on a reused address),
+            // only the kernel clearing the word means that the thread is gone
+            while self.tsm.get_futex().load(Ordering::Acquire) == UNFINISHED {
+                futex_wait_fast(self.tsm.get_futex(), UNFINISHED);
+            }
             #[cfg(feature = "verif-hooks")]
             rusl::verif::point(301);
             // The thread has completed, we have exclusive access to the memory.
@@ -64,7 +68,9 @@ impl<T: Sized> Drop for JoinHandle<T> {
                 rusl::verif::point(303);
                 // The thread got its work done first, we need to wait for it to exit, signalled
                 // by the OS through the futex, then we know we have exclusive access to the memory.
-                futex_wait_fast(self.tsm.get_futex(), UNFINISHED);
+                while self.tsm.get_futex().load(Ordering::Acquire) == UNFINISHED {
+                    futex_wait_fast(self.tsm.get_futex(), UNFINISHED);
+                }
                 // Nobody will consume the thread's result, drop it before freeing its slot
                 drop(self.tsm.get_value::<T>().into_inner());
                 self.tsm.dealloc();
